@@ -241,8 +241,21 @@ pub fn import_job(h: &Value, blob: &[u8]) -> Value {
                 Ok(o) => o.unwrap_or_default(),
                 Err(e) => return Ok(fail("new-operations-error", format!("page {}: {:?}", pages[k], e))),
             };
-            let a: Vec<OpDesc> = sops.iter().filter(|o| !matches!(o, Op::InlineImage { .. })).map(describe).collect();
-            let b: Vec<OpDesc> = nops.iter().filter(|o| !matches!(o, Op::InlineImage { .. })).map(describe).collect();
+            // (references inside operands, e.g. an inline property list << /K 7 0 R >>, are renumbered by the import)
+            fn unref(v: &Val) -> Val {
+                match v {
+                    Val::Ref(..) => Val::name("@reference"),
+                    Val::Array(a) => Val::Array(a.iter().map(unref).collect()),
+                    Val::Dict(d) => Val::Dict(d.iter().map(|(k, v)| (k.clone(), unref(v))).collect()),
+                    o => o.clone(),
+                }
+            }
+            let norm = |mut d: OpDesc| {
+                d.args = d.args.iter().map(unref).collect();
+                d
+            };
+            let a: Vec<OpDesc> = sops.iter().filter(|o| !matches!(o, Op::InlineImage { .. })).map(describe).map(norm).collect();
+            let b: Vec<OpDesc> = nops.iter().filter(|o| !matches!(o, Op::InlineImage { .. })).map(describe).map(norm).collect();
             if let Some(d) = descs_equal(&a, &b) {
                 return Ok(fail("operations", format!("page {}: {}", pages[k], d)));
             }
@@ -389,6 +402,9 @@ fn is_default_entry(path: &str, key: &[u8], v: &Canon) -> bool {
         // an optional /Type that states the obvious
         (b"Type", Canon::Name(n)) => matches!(n.as_slice(), b"XObject" | b"Font" | b"ExtGState" | b"FontDescriptor" | b"Pattern" | b"Encoding"),
         (b"F", Canon::Num(n)) | (b"Rotate", Canon::Num(n)) => *n == 0.0,
+        // font descriptor metrics whose default is 0
+        (b"Leading", Canon::Num(n)) | (b"XHeight", Canon::Num(n)) | (b"StemV", Canon::Num(n)) | (b"StemH", Canon::Num(n)) | (b"AvgWidth", Canon::Num(n)) | (b"MaxWidth", Canon::Num(n)) | (b"MissingWidth", Canon::Num(n)) if path.contains("FontDescriptor") => *n == 0.0,
+        (b"DW", Canon::Num(n)) => *n == 1000.0,
         _ => false,
     }
 }
@@ -510,6 +526,74 @@ pub fn run(ctx: &Ctx) {
             info.distinct((&f.name, pages));
             info.sample = Some(json!({"file": f.name, "pages": pages}));
             check(&f.data, &f.password, pages, &f.name, &skip, info)
+        },
+    );
+    // 1b. hostile sources: C14's typed fragments (a form listed in its own resources, colour spaces and fonts that refer
+    //     to each other ...), its structural cases and the regression corpus: an import may be refused, it must not
+    //     panic, abort or run away
+    let mut hostile: Vec<(String, Vec<u8>)> = Vec::new();
+    for f in crate::props::c14::fragments() {
+        hostile.push((format!("fragment/{}", f.name), crate::props::c14::write_fragment(&f, &f.objects)));
+    }
+    for (name, bytes) in crate::props::c14::structural_cases() {
+        if name.starts_with("hostile-corpus/") || name.starts_with("object-is-reference/") {
+            hostile.push((name, bytes));
+        }
+    }
+    // typed reference cycles and an object copied through two kinds of reference
+    {
+        use crate::engine::val::Val;
+        use crate::engine::writer::Writer;
+        let n = |x: &str| Val::name(x);
+        let r = |x: u64| Val::Ref(x, 0);
+        let rect = Val::Array(vec![Val::Int(0), Val::Int(0), Val::Int(10), Val::Int(10)]);
+        for (label, res, content, extra) in [
+            ("image-own-smask", Val::dict(vec![("XObject", Val::dict(vec![("Im", r(7))]))]), &b"/Im Do"[..], vec![(7u64, Val::Stream(vec![(Bytes::from("Type"), n("XObject")), (Bytes::from("Subtype"), n("Image")), (Bytes::from("Width"), Val::Int(1)), (Bytes::from("Height"), Val::Int(1)), (Bytes::from("ColorSpace"), n("DeviceGray")), (Bytes::from("BitsPerComponent"), Val::Int(8)), (Bytes::from("SMask"), r(7))], Bytes(vec![0])))]),
+            ("image-smask-pair", Val::dict(vec![("XObject", Val::dict(vec![("Im", r(7))]))]), &b"/Im Do"[..], vec![
+                (7u64, Val::Stream(vec![(Bytes::from("Type"), n("XObject")), (Bytes::from("Subtype"), n("Image")), (Bytes::from("Width"), Val::Int(1)), (Bytes::from("Height"), Val::Int(1)), (Bytes::from("ColorSpace"), n("DeviceGray")), (Bytes::from("BitsPerComponent"), Val::Int(8)), (Bytes::from("SMask"), r(8))], Bytes(vec![0]))),
+                (8u64, Val::Stream(vec![(Bytes::from("Type"), n("XObject")), (Bytes::from("Subtype"), n("Image")), (Bytes::from("Width"), Val::Int(1)), (Bytes::from("Height"), Val::Int(1)), (Bytes::from("ColorSpace"), n("DeviceGray")), (Bytes::from("BitsPerComponent"), Val::Int(8)), (Bytes::from("SMask"), r(7))], Bytes(vec![1]))),
+            ]),
+            ("form-in-own-resources", Val::dict(vec![("XObject", Val::dict(vec![("Fm", r(7))]))]), &b"/Fm Do"[..], vec![(7u64, Val::Stream(vec![(Bytes::from("Type"), n("XObject")), (Bytes::from("Subtype"), n("Form")), (Bytes::from("BBox"), rect.clone()), (Bytes::from("Resources"), Val::dict(vec![("XObject", Val::dict(vec![("Self", r(7))]))]))], Bytes(b"/Self Do".to_vec())))]),
+            ("property-list-inline-and-by-name", Val::dict(vec![("Properties", Val::dict(vec![("MC0", r(7))]))]), &b"/Span << /K 7 0 R >> BDC EMC /Span /MC0 BDC EMC"[..], vec![(7u64, Val::dict(vec![("Type", n("OCG")), ("Name", Val::str(b"L"))]))]),
+            ("font-through-gs-and-type0", Val::dict(vec![("ExtGState", Val::dict(vec![("G", Val::dict(vec![("Font", Val::Array(vec![r(8), Val::Int(10)]))]))])), ("Font", Val::dict(vec![("F0", r(7))]))]), &b"/G gs BT /F0 10 Tf (x) Tj ET"[..], vec![
+                (7u64, Val::dict(vec![("Type", n("Font")), ("Subtype", n("Type0")), ("BaseFont", n("T")), ("Encoding", n("Identity-H")), ("DescendantFonts", Val::Array(vec![r(8)]))])),
+                (8u64, Val::dict(vec![("Type", n("Font")), ("Subtype", n("CIDFontType2")), ("BaseFont", n("T")), ("CIDSystemInfo", Val::dict(vec![("Registry", Val::str(b"Adobe")), ("Ordering", Val::str(b"Identity")), ("Supplement", Val::Int(0))])), ("FontDescriptor", Val::dict(vec![("Type", n("FontDescriptor")), ("FontName", n("T")), ("Flags", Val::Int(4)), ("FontBBox", rect.clone()), ("ItalicAngle", Val::Int(0))]))])),
+            ]),
+        ] {
+            let mut w = Writer::new(b"", "1.5");
+            w.obj(1, 0, &Val::dict(vec![("Type", n("Catalog")), ("Pages", r(2))]));
+            w.obj(2, 0, &Val::dict(vec![("Type", n("Pages")), ("Kids", Val::Array(vec![r(3), r(4)])), ("Count", Val::Int(2))]));
+            for pg in [3u64, 4] {
+                w.obj(pg, 0, &Val::dict(vec![("Type", n("Page")), ("Parent", r(2)), ("MediaBox", rect.clone()), ("Resources", res.clone()), ("Contents", r(5))]));
+            }
+            w.stream_obj(5, 0, &[], content);
+            for (num, v) in extra {
+                match v {
+                    Val::Stream(dct, data) => {
+                        w.stream_obj(num, 0, &dct, &data);
+                    }
+                    v => {
+                        w.obj(num, 0, &v);
+                    }
+                }
+            }
+            w.free(0, 0, 65535);
+            w.xref_table(9, &[(Bytes::from("Root"), r(1))], false);
+            hostile.push((format!("typed-cycle/{}", label), w.finish()));
+        }
+    }
+    ctx.run_enum(
+        "hostile-sources",
+        hostile.len() as u64 * 2,
+        |k| k as usize,
+        |k, info| {
+            let (name, data) = &hostile[*k / 2];
+            let pages: Vec<u32> = if *k % 2 == 0 { vec![0] } else { vec![0, 1, 0] };
+            info.label("hostile-source");
+            info.distinct((name, &pages));
+            let r = check(data, b"", &pages, name, &skip, info);
+            info.nontrivial(true);
+            r
         },
     );
     // 2. generated documents (shared fonts/XObjects between pages, nested forms, compressed and encrypted sources)
